@@ -926,7 +926,7 @@ def emit_every_path_rule(db, chk, cfg, rule="EMIT.every-path"):
         changed = False
         for nm, f in funcs.items():
             cl = _Emit()
-            cl.pname = [p.get("name") for p in f.params if "Path" in qt(p) or "vector" in qt(p)][-1]
+            cl.pname = ([p.get("name") for p in f.params if "Path" in qt(p) or "vector" in qt(p)] or [None])[-1]
             Walker(cl).function(f.body, False)
             results[nm] = cl.bad
             if not cl.bad and nm not in always:
